@@ -703,8 +703,7 @@ fn lookup_action(
     name: &str,
 ) -> Result<TableAction, Error> {
     registry
-        .lookup_table(name)
-        .filter(|action| action.is_live(es))
+        .lookup_live_table(name, es)
         .cloned()
         .ok_or_else(|| {
             ApiError::MissingTable {
